@@ -47,6 +47,10 @@ type histDesc struct {
 	AppDesc    string `json:"appDesc"`
 	// the rest of the application header that is saved with the graph: JSON text of []schema.Author and of
 	// schema.WebScene ("" = not set)
+	// Saver: "" (saves are App.Schema() bytes), "each" (a generator.GraphSaver writes the graph file after every edit,
+	// as the edit server's endpoints do) or "evals" (it writes at the reads and once after the last edit); with a saver
+	// the fresh application loads the FILE read back from disk
+	Saver    string `json:"saver,omitempty"`
 	Authors  string `json:"authors,omitempty"`
 	WebScene string `json:"webScene,omitempty"`
 	Ops      []Op   `json:"ops"`
@@ -100,7 +104,7 @@ func applyOp(inst *graph.Instance, op Op) (string, outcome) {
 	case "eval":
 		// a READ: every artifact is produced (caches are warm afterwards), the UI's view of the graph and every
 		// parameter's message are requested. Not an edit: the model is not told (empty rendering).
-		return "", guard(func() error { readEverything(inst); return nil })
+		return "", guard(func() error { readEverything(inst); saverSave(inst); return nil })
 	case "create":
 		key := op.Ty
 		coqTy := len(tyTable) + 7 // an index outside the table: unregistered type
@@ -463,6 +467,7 @@ func newApp(d histDesc) (*generator.App, *graph.Instance) {
 func forget(insts ...*graph.Instance) {
 	for _, i := range insts {
 		delete(appOf, i)
+		dropSaver(i)
 	}
 }
 
